@@ -166,6 +166,16 @@ class Exec(ExprMixin, StmtMixin, CallMixin, ContractMixin):
             for lab, enode in ci.ensures:
                 if lab.startswith("always:"):
                     self.check(st, self.eval_in_contract(ci, enode, st, {"result": NONE}), "post", lab)
+                elif lab.startswith("onraise:"):
+                    # "onraise:<ExceptionClass>:<label>": a clause about the exception object (raised("field")) and the state / ghost log
+                    # at the moment that exception leaves the function
+                    _, cls_, lab2 = lab.split(":", 2)
+                    if self.repo.is_subclass(exc.cls, cls_):
+                        self.cur_exc = exc
+                        try:
+                            self.check(st, self.eval_in_contract(ci, enode, st, {"result": NONE}), "post", "on-%s:%s" % (cls_, lab2))
+                        finally:
+                            self.cur_exc = None
             return
         result = out[1] if kind == "return" else NONE
         if isinstance(result, Raise):
@@ -194,6 +204,8 @@ class Exec(ExprMixin, StmtMixin, CallMixin, ContractMixin):
                 st.ghost, st.pure = saved
             self.check(st, veq(result, expect), "post", "functional:result-is-%s-of-the-arguments" % sp.qualname)
         for lab, enode in ci.ensures:
+            if lab.startswith("onraise:"):
+                continue
             c = self.eval_in_contract(ci, enode, st, {"result": result})
             self.check(st, c, "post", lab[7:] if lab.startswith("always:") else lab)
         self.check_frame(ci, st)
